@@ -22,7 +22,8 @@ DOMAIN = [
 
 
 def sig(ev):
-    return {"failed": ev["failed"], "panic": ev["panic"], "style": ev["style"].split(" ")[0], "same": ev.get("same", True)}
+    return {"failed": ev["failed"], "panic": ev["panic"], "style": ev["style"].split(" ")[0], "same": ev.get("same", True),
+            "probe": ev.get("probe", "")}
 
 
 def desc(mode):
@@ -50,9 +51,11 @@ def run_mode(ctx, replay, mode, assumptions, model_fn=None, extra_traces_fn=None
     if extra_traces_fn:
         t2, s2 = extra_traces_fn(ctx)
         traces += t2
+    t3, _ = vlib.drive_gen(ctx, "cdoc", 1, extra=["-probes", 1], tag="probes")
+    traces += t3
     n, bad = vlib.judge(ctx, "Trace_Doc", traces, cfg_text=tcfg, timeout=3400)
     vlib.report_bad(ctx, bad, sig, desc(mode),
-                    lambda ev: {"cases": [{"src": ev["src"], "style": ev["style"], "doc": ev.get("doc") or ev.get("m")}],
+                    lambda ev: {"cases": [{"src": ev["src"], "style": ev["style"], "doc": ev.get("doc") or ev.get("m"), "probe": ev.get("probe", "")}],
                                 "event": {k: ev[k] for k in ("failed", "errmsg", "style", "same", "kinds") if k in ev}},
                     vlib.confirm_by_cases(ctx, "cdoc", "Trace_Doc", cfg_text=tcfg))
     cov = {
